@@ -52,7 +52,7 @@ func (g *customGen[V]) maybeValue(t *T) (V, bool) {
 			}
 			t.cleanupAfterFailure() // a Cleanup function that skips as well can not hide what the remaining ones signal
 			t.failOnError()         // a failure signalled from a cleanup of the skipped attempt is still a failure
-			if r == invalidData(overrunMsg) {
+			if exhausted(t.s) {
 				panic(r) // an exhausted bitstream stays exhausted: another attempt can not succeed
 			}
 		}
